@@ -25,7 +25,8 @@ CLASSES = {
   'ClientMessageSinkStack': dict(path='ClientMessageSinkStack', bases=['SinkStack'], fields={}),
   # a request/reply message: only its properties dictionary is visible to the sinks verified here
   'Message': dict(extern=True, path=None, fields={'properties': 'Props', 'public_properties': 'dict[str,any]', 'is_one_way': 'bool',
-                                                    'g_thrift': 'int', 'g_thrift_len': 'int'}, ghost=['g_thrift', 'g_thrift_len'], bases=[]),
+                                                    'g_thrift': 'int', 'g_thrift_len': 'int', 'g_topic': 'bytes', 'g_payloads': 'list[bytes]', 'g_acks': 'int'},
+                  ghost=['g_thrift', 'g_thrift_len', 'g_topic', 'g_payloads', 'g_acks'], bases=[]),
   # message.properties: a dict used as a record with a few well-known keys
   'Props': dict(extern=True, path=None, bases=[], dictlike={
     '__Tag': ('tag', 'int?'), '__Deadline': ('deadline', 'real?'),
